@@ -406,6 +406,14 @@ def rule_plumbing(ctx):
     c05b(ctx)
 
 
+def rule_setup_layout(ctx):
+    """What SETUP carries on the wire is what the frame object holds: version, both periods as full 32-bit
+    millisecond counts, MIME types, flags and payload are written and read at the positions and widths of the RSocket
+    1.0 layout (shared C02.a for SetupFrame, both codec backends)."""
+    from .c02 import rule_a as c02a
+    c02a(ctx, only={'SetupFrame'})
+
+
 def rule_e(ctx):
     """What the client was configured with is still there for the next connection: the attributes __init__ fills from
     the constructor arguments and that SETUP (and the keepalive / lease machinery) read are written nowhere else.  A
@@ -447,4 +455,4 @@ def rule_e(ctx):
                 'configured with' % (writers[0][0].short, writers[0][1].lineno, a))
 
 
-RULES = [('C16.a', rule_a), ('C16.b', rule_b), ('C16.c', rule_c), ('C16.d', rule_d), ('C16.b', rule_plumbing), ('C16.e', rule_e)]
+RULES = [('C16.a', rule_a), ('C16.b', rule_b), ('C16.c', rule_c), ('C16.d', rule_d), ('C16.b', rule_plumbing), ('C16.e', rule_e), ('C02.a', rule_setup_layout)]
